@@ -104,6 +104,7 @@ func (c03) Exec(c *sim.Case, env *Env) []sim.Violation {
 	defer os.RemoveAll(dir)
 	w := world.New(env.Stats, env.Log, dir)
 	w.ShortReadRng = sim.NewRand(c.OrderSeed ^ 0x5151)
+	w.Stable = c.C("stable") == 1
 	var viol []sim.Violation
 	seen := map[string]bool{}
 	add := func(clause, sig, detail string) {
@@ -148,7 +149,7 @@ func (c03) Exec(c *sim.Case, env *Env) []sim.Violation {
 		// ---- restart: open the previous bytes, save again
 		var d2 *document.Document
 		var oerr error
-		if sig, pn := Guard(func() { d2, oerr = w.OpenBytes(prev, op.Int(1)) }); pn {
+		if sig, pn := Guard(func() { d2, oerr = w.OpenBytesAt(prev, op.Int(1), ds.StablePath) }); pn {
 			add("panic", sig, "Open panicked on a package the library itself wrote")
 			return viol
 		}
